@@ -39,6 +39,7 @@ type loadX struct {
 	Nograph bool     `json:"nograph"`
 	Nodes   []mNode  `json:"nodes"`
 	Perturb string   `json:"perturb"`
+	Nested  int      `json:"nested"` // > 0: the graph holds a chain of this many nested subgraphs (node -> attribute -> graph -> node ...)
 	Sparse  string   `json:"sparse"` // sparse initializer entries of the graph (a field the interpreter has no use for)
 	Expect  string   `json:"expect"` // ok | error | nocrash
 	Errc    []string `json:"errc"`
@@ -145,6 +146,9 @@ func execLoadCase(c *Case) []ModeResult {
 	b, err := proto.Marshal(mp)
 	if err != nil {
 		return []ModeResult{{"load", "infra:" + err.Error(), ""}}
+	}
+	if x.Nested > 0 {
+		b = nestedModelBytes(x.Nested)
 	}
 	o := tryLoad(b)
 	verdict := "pass"
@@ -321,4 +325,47 @@ func execLoadZipCase(c *Case) []ModeResult {
 		verdict = "violation:an honest archive was refused: " + o.Short()
 	}
 	return []ModeResult{{"zip:" + x.Declared, verdict, o.Short()}}
+}
+
+// nestedModelBytes: a well-formed model (opset 13) whose graph holds one node whose attribute holds a graph whose node ... `levels`
+// deep (control-flow operators nest graphs that way). Written directly in the wire format, sizes first, then front to back.
+func nestedModelBytes(levels int) []byte {
+	vlen := func(n int) int {
+		l := 1
+		for n >= 128 {
+			n >>= 7
+			l++
+		}
+		return l
+	}
+	put := func(b []byte, n int) []byte {
+		for n >= 128 {
+			b = append(b, byte(n&127|128))
+			n >>= 7
+		}
+		return append(b, byte(n))
+	}
+	// g[i]: size of the graph at depth i (g[levels] = 0: the innermost graph is empty)
+	g := make([]int, levels+1)
+	attr := make([]int, levels)
+	node := make([]int, levels)
+	for i := levels - 1; i >= 0; i-- {
+		attr[i] = 1 + vlen(g[i+1]) + g[i+1]   // AttributeProto{g (6)}
+		node[i] = 1 + vlen(attr[i]) + attr[i] // NodeProto{attribute (5)}
+		g[i] = 1 + vlen(node[i]) + node[i]    // GraphProto{node (1)}
+	}
+	out := make([]byte, 0, g[0]+32)
+	out = append(out, 0x08, 0x07)             // ir_version = 7
+	out = append(out, 0x42, 0x02, 0x10, 0x0d) // opset_import { version: 13 }
+	out = append(out, 0x3a)                   // graph (7)
+	out = put(out, g[0])
+	for i := 0; i < levels; i++ {
+		out = append(out, 0x0a) // node (1)
+		out = put(out, node[i])
+		out = append(out, 0x2a) // attribute (5)
+		out = put(out, attr[i])
+		out = append(out, 0x32) // g (6)
+		out = put(out, g[i+1])
+	}
+	return out
 }
